@@ -1016,7 +1016,9 @@ class Explorer:
                 except Violation:
                     break
                 except Unanalysable as u:
-                    self.unanalysable.append({"what": u.what, "where": m.where(st), "stack": m.stack(st), "path": m.describe_path(st)})
+                    self.unanalysable.append({"what": u.what, "where": m.where(st), "stack": m.stack(st), "path": m.describe_path(st),
+                                              "phase": getattr(st.mon, "phase", None),
+                                              "options_on": tuple(sorted(k[4:] for k, val in st.env.items() if k.startswith("cfg:") and val))})
                     break
         return self
 
@@ -1076,7 +1078,9 @@ class Explorer:
                     self.finish(s2)
                 return
             except Unanalysable as u:
-                self.unanalysable.append({"what": u.what, "where": "at return", "stack": [], "path": self.m.describe_path(st)})
+                self.unanalysable.append({"what": u.what, "where": "at return", "stack": [], "path": self.m.describe_path(st),
+                                          "phase": getattr(st.mon, "phase", None),
+                                          "options_on": tuple(sorted(k[4:] for k, val in st.env.items() if k.startswith("cfg:") and val))})
                 return
         self.results.append(st)
         if self.on_result:
